@@ -460,6 +460,43 @@ def drain(ex, it, frame):
     raise Unsupported(f"drain of {it!r}")
 
 
+def m_iter_chain(ex, callee, args, ret_ty, frame):
+    """Iterator::chain: eager concatenation (both sides have a decided length in the code reached)"""
+    a = drain(ex, args[0], frame)
+    b = drain(ex, args[1], frame)
+    items = a + b
+    return VIter(VSeq("?", len(items), items, ex.new_vid()), 0, None, "owned")
+
+
+def m_option_eq(ex, callee, args, ret_ty, frame):
+    """<Option<T> as PartialEq>::eq / ne: None == None; Some(x) == Some(y) iff x == y by T's own PartialEq"""
+    a, b = deref(ex, args[0]), deref(ex, args[1])
+    if not (isinstance(a, VAdt) and isinstance(b, VAdt) and a.base() == "Option" and b.base() == "Option"):
+        return NOT_HANDLED
+    ia, ib = adt_variant(ex, a, "Option::eq.lhs"), adt_variant(ex, b, "Option::eq.rhs")
+    if ia != ib:
+        r = VBool(False)
+    elif ia == 0:
+        r = VBool(True)
+    else:
+        x, y = ex.adt_fields(a, 1)[0], ex.adt_fields(b, 1)[0]
+        inner = ty_args(norm_ty(a.ty))[0] if ty_args(norm_ty(a.ty)) else None
+        tx = deref(ex, x)
+        tname = base_ty(getattr(tx, "ty", "") or "")
+        f = None
+        for cand in ex.P.trait_impls.get((tname, "PartialEq", "eq"), []):
+            f = cand
+            break
+        if f is None:
+            return NOT_HANDLED
+        rx = x if isinstance(x, VRef) else VRef(ex.heap(x, "eq.l"))
+        ry = y if isinstance(y, VRef) else VRef(ex.heap(y, "eq.r"))
+        r = ex.run_function(f, [rx, ry], 3)
+    if callee.endswith("::ne"):
+        return VBool(z3.Not(r.b))
+    return r
+
+
 def m_vec_extend(ex, callee, args, ret_ty, frame):
     dst = deref(ex, args[0])
     if not isinstance(dst, VSeq):
@@ -493,6 +530,15 @@ def m_collect_any(ex, callee, args, ret_ty, frame):
             return ex.run_function(cand, [args[0]], 3)
     if len(cands) == 1:
         return ex.run_function(cands[0], [args[0]], 3)
+    # nested adaptor types (Chain<Chain<..>>): decide by the items themselves
+    it = args[0]
+    items = it.seq.items[it.pos:] if isinstance(it, VIter) and it.seq is not None else None
+    if items is not None:
+        kind = base_ty(getattr(items[0], "ty", "")) if items else None
+        for cand in cands:
+            tr = norm_ty(cand.trait or "")
+            if kind is None or tr == f"FromIterator<{kind}>":
+                return ex.run_function(cand, [args[0]], 3)
     return NOT_HANDLED
 
 
@@ -699,6 +745,8 @@ BUILTIN = [
     (r"^Vec(::)?(<.*>)?::extend_from_slice$", m_extend_from_slice),
     (r"^<impl \[.*\]>::to_vec$|^<\[.*\] as ToOwned>::to_owned$", m_to_vec),
     (r"^<.+ as Iterator>::map::<", m_iter_map),
+    (r"^<.+ as Iterator>::chain::<", m_iter_chain),
+    (r"^<Option<.*> as PartialEq>::(eq|ne)$", m_option_eq),
     (r"^<Vec<.*> as Extend<.*>>::extend::<", m_vec_extend),
     (r"^<.+ as Iterator>::collect::<Vec<.*>>$", m_collect_vec),
     (r"^<.+ as Iterator>::collect::<[A-Z]\w*>$", m_collect_any),
